@@ -40,8 +40,8 @@ def expand_obs(run):
     return out
 
 
-def run_driver(ctx, name, args, label, timeout=1800):
-    binp = ctx.build(name)
+def run_driver(ctx, name, args, label, timeout=1800, tags="verif"):
+    binp = ctx.build(name, tags=tags)
     out = ctx.tmp("rec-" + label)
     rc, o = ctx.run([binp, "-out", out] + [str(a) for a in args], timeout=timeout)
     if rc == 3:
@@ -230,9 +230,43 @@ def inflight_probe(ctx):
     ctx.cov["inflight_probe"] = "differs" if len(ctx.violations) + len(ctx.known_hit) > before else "conforms"
 
 
-def e2e(ctx, seed, blocks, runs, label, inflight=False):
-    args = ["-seed", seed, "-blocks", blocks, "-runs", runs] + (["-inflight"] if inflight else [])
-    out = run_driver(ctx, "prunee2e", args, label)
+def teeth(ctx, names):
+    """Deliberately broken variants of the design (MC_NodeStore_teeth_*.cfg) must each violate an invariant: the
+    invariants constrain, and the assumptions written into CanPrune / the layout / the delete limit are necessary.
+    Run in parallel (small configurations, 2 workers each)."""
+    import threading
+    res = {}
+
+    def one(n):
+        res[n] = ctx.tlc(SUB, "MC_NodeStore", cfg="MC_NodeStore_teeth_%s.cfg" % n, workers=2, timeout=1500, heap="3g",
+                         count=False, label="must-be-violated:" + n)
+    ths = [threading.Thread(target=one, args=(n,)) for n in names]
+    for t in ths:
+        t.start()
+    for t in ths:
+        t.join()
+    caught = {}
+    for n in names:
+        r = res.get(n)
+        if r is None or r.timeout:
+            raise Infra("teeth config %s did not finish" % n)
+        if not r.invariant:
+            raise Infra("teeth config %s: the broken variant is NOT caught by any invariant (%s)\n%s"
+                        % (n, r.error or "no error found", r.out[-1500:]))
+        caught[n] = "%s after %d states" % (r.invariant, r.generated)
+    ctx.cov.setdefault("must_be_violated", {}).update(caught)
+    ctx.log("teeth: " + ", ".join("%s->%s" % (n, caught[n].split()[0]) for n in names))
+
+
+def live_hook_present(ctx):
+    p = os.path.join(ctx.repo, "cmd/thor/pruner/verif_hooks.go")
+    return os.path.exists(p) and "VerifSetLoopScale" in open(p).read()
+
+
+def e2e(ctx, seed, blocks, runs, label, inflight=False, crash=False, live=False):
+    args = ["-seed", seed, "-blocks", blocks, "-runs", runs] + (["-inflight"] if inflight else []) \
+        + (["-crash"] if crash else []) + (["-live"] if live else [])
+    out = run_driver(ctx, "prunee2e", args, label, tags="verif,veriflive" if live else "verif")
     if out is None:
         return []
     reps = json.load(open(os.path.join(out, "report.json")))
@@ -242,7 +276,8 @@ def e2e(ctx, seed, blocks, runs, label, inflight=False):
             ctx.report("e2e-prune-error", "real pruner failed (%s seed %s): %s" % (rep["cfg"], seed, pe), rp)
         seen = set()
         for m in rep["mismatches"]:
-            if m["class"] == "inflight" and m["phase"] == "in-flight" and m["got"] != "ERR" and m["key"] != "PANIC":
+            if m["class"] == "inflight" and m["phase"] in ("in-flight", "after-crash", "after-failed-resume", "live", "live-tail") \
+                    and m["got"] != "ERR" and m["key"] != "PANIC":
                 sig = INFLIGHT_SIG
             elif m["key"] == "PANIC":
                 sig = "e2e-panic"
@@ -255,4 +290,9 @@ def e2e(ctx, seed, blocks, runs, label, inflight=False):
             ctx.report(sig, "e2e %s seed %s round %s %s: block %d (%s%s) %s expected %s got %s" %
                        (rep["cfg"], seed, m["round"], m["phase"], m["block"], m["class"], ", side block" if m["side"] else "",
                         m["key"], m["expected"], m["got"]), rp)
+        if rep.get("resumeErrors"):
+            # not a read deviation: see NodeStore!Resumable / MC_NodeStore_teeth_resume.cfg
+            ctx.cov.setdefault("crash_resume_errors", 0)
+            ctx.cov["crash_resume_errors"] += len(rep["resumeErrors"])
+            ctx.cov["crash_resume_example"] = rep["resumeErrors"][0][:300]
     return reps
